@@ -174,7 +174,7 @@ pub fn run(opts: &Opts) -> Report {
     let a = Reorder;
     crate::props::committed_replays(&a, opts, &mut rep);
     run_sub(&a, opts, opts.tier.pick(5000, 100_000), &mut rep);
-    crate::props::cli::c13(opts, &mut rep, opts.tier.pick(6, 150));
+    crate::props::cli::c13(opts, &mut rep, opts.tier.pick(40, 600));
     rep
 }
 
